@@ -17,6 +17,8 @@ type Env struct {
 	vars   map[string]Val
 	lookup func(name string) (Val, bool)
 	lookupAddr func(name string) (Val, bool) // address of an alloc-backed source variable
+	entry      map[string]Val                // parameter values at function entry (what old(x) means for a parameter x)
+	isOld      bool
 	cur    *State
 	old    *State
 	pkg    *types.Package
@@ -38,6 +40,7 @@ func (e *Env) with(vars map[string]Val) *Env {
 func (e *Env) inOld() *Env {
 	n := *e
 	n.cur = e.old
+	n.isOld = true
 	return &n
 }
 
@@ -294,6 +297,11 @@ func findFieldPath(t types.Type, name string) []int {
 func (e *Env) resolveIdent(name string) (Val, bool) {
 	if v, ok := e.vars[name]; ok {
 		return v, true
+	}
+	if e.isOld && e.entry != nil {
+		if v, ok := e.entry[name]; ok {
+			return v, true
+		}
 	}
 	if e.lookup != nil {
 		if v, ok := e.lookup(name); ok {
@@ -890,7 +898,9 @@ func (e *Env) evalUF(t *ast.CallExpr) Val {
 			sorts = append(sorts, l.S)
 		}
 	}
-	c.decls.Fun(name, sorts, srt)
+	if name != "byte2str" && name != "rune2str" && name != "bytes2str" {
+		c.decls.Fun(name, sorts, srt)
+	}
 	var typ types.Type
 	switch srt {
 	case SInt:
